@@ -35,6 +35,8 @@ def boundary_scripts():
     # scripts over the symbol table left by the setup script of the "reuse" mode (local zz, global gg, function yy)
     S += [("reuse-global", "return gg\n"), ("reuse-global-fn", "f := func() { return gg }\nreturn f()\n"), ("reuse-global-set", "gg = 3\nreturn [gg, \"s\"]\n"),
           ("reuse-local", "return zz\n"), ("reuse-fn", "return yy()\n"), ("reuse-global-decl", "global gg\nreturn gg\n")]
+    S += [("import-m1", "return import(\"m1\")\n"), ("import-time-m1", "t := import(\"time\")\nm := import(\"m1\")\nreturn [t, m]\n"),
+          ("import-in-fn", "f := func() { return import(\"m1\") }\nreturn f()\n")]
     S += [("rem0", "return 1 % 0\n"), ("rem00", "return 0%0\n"), ("shlneg", "return 1 << -1\n"), ("const-paren-brace", "const(}"),
           ("var-paren-brace", "var(}"), ("param-paren-brace", "param(}"), ("const-x", "const(x=1}"), ("global-paren", "global(}"),
           ("cyclic", "return import(\"c1\")\n"), ("self-import", "return import(\"s1\")\n"), ("unknown-import", "return import(\"nope\")\n")]
@@ -58,7 +60,7 @@ def mutate_src(rng, src):
 def run(rep, br, proofs, rng, tier):
     cases = []
     flags_all = ["noopt", "opt", "lim1", "lim3"]
-    modes = ["batch", "eval", "reuse"]
+    modes = ["batch", "eval", "reuse", "evalfail"]
     mods = [hexs(m.encode()) for m in MODS]
     # boundary enumeration x configurations
     for name, src in boundary_scripts():
